@@ -9,7 +9,8 @@ import os
 def specialize_source(source, specialize_for, search_in_folders=[]):
     assert specialize_for in ["cpu_serial", "cpu_openmp", "opencl", "cuda"]
 
-    source_lines = source.splitlines()
+    # lines end with "\n" only: form feeds and other separators are text
+    source_lines = source.split("\n")
 
     lines = []
     for ll in source_lines:
